@@ -87,7 +87,7 @@ def build(src):
     f1 = fn(n["f1"], None)
     top = ModuleOp([f1, m1, top_plain])
     tables = [(top, [f1, m1]), (m1, [f2, m2]), (m2, [f3]), (unnamed, [unnamed.body.block.first_op])]
-    starts = {"body_of_f2": body_op, "f2": f2, "m1": m1, "m2_plain": inner_plain, "top_plain": top_plain, "top": top, "in_unnamed": unnamed.body.block.first_op}
+    starts = {"body_of_f2": body_op, "f2": f2, "m1": m1, "m2_plain": inner_plain, "top_plain": top_plain, "top": top, "m2": m2, "in_unnamed": unnamed.body.block.first_op}
     return top, starts, tables
 
 
@@ -168,6 +168,14 @@ def harness(ob, concrete=None):
             got2 = coll.lookup_nearest_symbol_from(start, ref)  # second query through the now-populated cache
             if got2 is not got:
                 return {"prop": False, "detail": "the cached lookup answers differently the second time"}
+        elif impl == "cached_seq":
+            # one collection serving two different starting operations: the answer for the second must not depend on the first
+            coll = SymbolTableCollection()
+            other = starts[ob["first"]]
+            got_other = coll.lookup_nearest_symbol_from(other, ref)
+            if got_other is not reference(other, comps):
+                return {"prop": False, "detail": f"cached lookup from {ob['first']} differs from the nesting rules"}
+            got = coll.lookup_nearest_symbol_from(start, ref)
         else:
             try:
                 got = traits.SymbolTable.lookup_symbol(start, ref)
@@ -183,7 +191,7 @@ def harness(ob, concrete=None):
 
 def bounds(tier):
     return {"symbols": "6 named symbols in 4 tables (top module, named module, module nested in it, unnamed module)", "names": "1 symbolic cell each over {a,b,c} (all equality patterns)", "visibilities": "absent/public/private/nested, enumerated",
-            "reference_components": "1-3", "start_operations": 7, "implementations": ["SymbolTable (direct)", "SymbolTableCollection (cached)", "traits.SymbolTable.lookup_symbol"]}
+            "reference_components": "1-3", "start_operations": 8, "shared_collection_sequences": "8 ordered pairs of starting operations served by one SymbolTableCollection", "implementations": ["SymbolTable (direct)", "SymbolTableCollection (cached)", "traits.SymbolTable.lookup_symbol"]}
 
 
 def obligations(tier):
@@ -194,6 +202,9 @@ def obligations(tier):
                 obs.append({"id": f"C29/{impl}/{start}/{nc}", "impl": impl, "start": start, "ncomp": nc, "weight": 2 * nc})
             if impl != "trait":
                 obs.append({"id": f"C29/{impl}/{start}/1ref", "impl": impl, "start": start, "ncomp": 1, "as_ref": True, "weight": 2})
+    for first, start in (("top_plain", "m1"), ("m1", "top_plain"), ("f2", "m2"), ("m2", "f2"), ("body_of_f2", "f2"), ("m2_plain", "m2"), ("m2", "m2_plain"), ("m1", "body_of_f2")):
+        for nc in (1, 2):
+            obs.append({"id": f"C29/cached_seq/{first}-{start}/{nc}", "impl": "cached_seq", "first": first, "start": start, "ncomp": nc, "weight": 3 * nc})
     return obs
 
 
